@@ -508,6 +508,7 @@ def _run_history(case, ctx, keep_alive, snaps, kw_box):
         name, cfg, seed = st["name"], st["cfg"], st["seed"]
         cfgs.append(cfg)
         kw = dict(cls=spec["cls"], path=path, tags=set(tags), info=common.spec_info(spec) | {"q:" + name, "prev:" + prev, "cfg:" + settings_key(cfg), f"pos{pos}"} | ({"derived"} if derivs else set()))
+        kw0 = kw
         ctx.stat("queries")
         h0 = _HITS[0]
         # fresh copy: same spec, same derivations, no earlier queries; constructed like the history object under default settings
@@ -523,6 +524,8 @@ def _run_history(case, ctx, keep_alive, snaps, kw_box):
         ctx.stat("cache_hits", hits)
         lanczos = rec.count("lanczos.end") > 0
         lanczos_seen = lanczos_seen or lanczos
+        if lanczos_seen:
+            kw = dict(kw, tags=set(kw["tags"]) | {"after_lanczos"})
         if not ok_fresh:
             continue
         if ex is not None or exf is not None:
@@ -563,4 +566,4 @@ def _run_history(case, ctx, keep_alive, snaps, kw_box):
             else:
                 ctx.ok(name, key, True, sample=dict(spec=zoo.class_path(spec, 3), history=[s["name"] for s in case["steps"][: pos + 1]], query=name, cache_hits=hits, err=err))
         prev = name
-        validate_cache(ctx, H, Hd, dict(kw, tags=set(tags)), "history_object" if not derivs else "derived", allowance=allowance, fresh_answer=fresh_answer, lanczos_seen=lanczos_seen, fresh_obj=(F, Fd), seen=seen, snaps=snaps)
+        validate_cache(ctx, H, Hd, dict(kw, tags=set(tags) | ({"after_lanczos"} if lanczos_seen else set())), "history_object" if not derivs else "derived", allowance=allowance, fresh_answer=fresh_answer, lanczos_seen=lanczos_seen, fresh_obj=(F, Fd), seen=seen, snaps=snaps)
